@@ -935,6 +935,38 @@ func runAPI(cfg *config, prop string) *Report {
 				directed = append(directed, directedHist{frb, reqs})
 			}
 		}
+		var emptied []directedHist
+		// a file emptied one cash letter at a time, reads after each removal, then removals from the EMPTY file (the ID
+		// just removed, an ID never known), reads, a cash letter added again, reads
+		for k, doc := range pools.jsonDocs {
+			id := pools.jsonIDs[k]
+			var probe struct {
+				CashLetters []struct {
+					ID string `json:"id"`
+				} `json:"cashLetters"`
+			}
+			if id == "" || k > 1 || json.Unmarshal(doc, &probe) != nil || len(probe.CashLetters) == 0 {
+				continue
+			}
+			reqs := []*apiReq{{Kind: "c1", Body: doc, CT: "application/json", Src: "clean"}, {Kind: "get", ID: id}}
+			last := ""
+			for _, c := range probe.CashLetters {
+				if c.ID == "" {
+					continue
+				}
+				last = c.ID
+				reqs = append(reqs, &apiReq{Kind: "rem", ID: id, CID: c.ID}, &apiReq{Kind: "get", ID: id}, &apiReq{Kind: "list"})
+			}
+			if last == "" {
+				continue
+			}
+			reqs = append(reqs, &apiReq{Kind: "rem", ID: id, CID: last}, &apiReq{Kind: "get", ID: id}, &apiReq{Kind: "rem", ID: id, CID: "never-known"},
+				&apiReq{Kind: "get", ID: id}, &apiReq{Kind: "val", ID: id}, &apiReq{Kind: "cont", ID: id}, &apiReq{Kind: "list"})
+			if cb := pick("valid-cashletter", nil); cb != nil {
+				reqs = append(reqs, &apiReq{Kind: "add", ID: id, Body: cb.b, Src: "clean"}, &apiReq{Kind: "get", ID: id}, &apiReq{Kind: "list"})
+			}
+			emptied = append(emptied, directedHist{false, reqs})
+		}
 		// a return file with zoned dates created through v2 WITHOUT being JSON-encoded in the answer, then only read
 		if pools.zonedReturnDoc != nil {
 			reqs := []*apiReq{{Kind: "c2", Body: pools.zonedReturnDoc, CT: "application/json", Accept: "text/plain", Src: "clean"},
@@ -1000,8 +1032,11 @@ func runAPI(cfg *config, prop string) *Report {
 				&apiReq{Kind: "cont", ID: "@last"}, &apiReq{Kind: "list"}, &apiReq{Kind: "val", ID: "@last"}, &apiReq{Kind: "get", ID: "@last"})
 			directed = append([]directedHist{{false, reqs}}, directed...)
 		}
-		if cfg.tier != "thorough" && len(directed) > 13 {
-			directed = directed[:13]
+		if len(emptied) > 0 {
+			directed = append([]directedHist{emptied[0]}, append(directed, emptied[1:]...)...)
+		}
+		if cfg.tier != "thorough" && len(directed) > 14 {
+			directed = directed[:14]
 		}
 		nHist += len(directed)
 	}
